@@ -132,6 +132,11 @@ Clauses(e, n) ==
              LET f == e.fills[k] IN c.op = "update" => f.comm >= 0 /\ Amt(f.comm \in CommissionSet(f.px, f.qty))
                                                      /\ (fee.kind = "zero" => f.comm = 0) >>,
         << << "C05", "stamp" >>, \A k \in 1..Len(e.fills) : e.fills[k].t = c.t >>,
+        \* what the portfolio is debited for its fills of this update: the consideration plus the commission the fill
+        \* carries (that commission itself is judged by the clause above) - a sell is charged exactly like a buy
+        << << "C05", "debited" >>, c.op = "update" => Amt(\A p \in ps \cap DOMAIN cash :
+             LET ks == { k \in 1..Len(e.fills) : e.fills[k].pid = p }
+             IN  cash[p] - cash'[p] = SumOver(ks, [k \in ks |-> e.fills[k].qty * e.fills[k].px + e.fills[k].comm])) >>,
         << << "C02", "marks" >>, { << e.marks[k].pid, e.marks[k].asset, e.marks[k].px >> : k \in 1..Len(e.marks) } = expMarks >>,
         \* holdings = net of the OBSERVED fills, valued at the latest price seen (ghosts follow the observed sub-events)
         << << "C02", "domain" >>, \A p \in ps \cap DOMAIN net' : DOMAIN lhold'[p] = { a \in Assets : net'[p][a] # 0 } >>,
